@@ -136,6 +136,9 @@ func (g Gateway) RegisterSwamp(_ context.Context, in *hydrapb.RegisterSwampReque
 		// return with grpc error message
 		return nil, status.Error(codes.InvalidArgument, "SwampPattern cannot be empty")
 	}
+	if !validSwampName(in.SwampPattern) {
+		return nil, status.Error(codes.InvalidArgument, "SwampPattern must have the form sanctuary/realm/swamp")
+	}
 
 	// try to create the pattern from the input string
 	swampPattern := name.Load(in.SwampPattern)
@@ -180,6 +183,9 @@ func (g Gateway) DeRegisterSwamp(_ context.Context, in *hydrapb.DeRegisterSwampR
 	if in.SwampPattern == "" {
 		// return with grpc error message
 		return nil, status.Error(codes.InvalidArgument, "SwampPattern cannot be empty")
+	}
+	if !validSwampName(in.SwampPattern) {
+		return nil, status.Error(codes.InvalidArgument, "SwampPattern must have the form sanctuary/realm/swamp")
 	}
 
 	// try to create the pattern from the input string
@@ -1246,6 +1252,11 @@ func (g Gateway) DestroyBulk(stream hydrapb.HydraideService_DestroyBulkServer) e
 		go func() {
 			defer wg.Done()
 			for target := range workCh {
+				if !validSwampName(target.GetSwampName()) {
+					failed.Add(1)
+					lastError.Store(fmt.Sprintf("%q: SwampName must have the form sanctuary/realm/swamp", target.GetSwampName()))
+					continue
+				}
 				swampName := name.Load(target.GetSwampName())
 				swampInterface, err := hydraInterface.SummonSwamp(stream.Context(), target.GetIslandID(), swampName)
 				if err != nil {
@@ -2938,6 +2949,11 @@ func handlePanic() {
 	}
 }
 
+// validSwampName reports whether the name has the sanctuary/realm/swamp form that name.Load expects.
+func validSwampName(swampName string) bool {
+	return strings.Count(swampName, "/") >= 2
+}
+
 // checkSwampName check if the swamp name is valid and exist or not.
 // The function will return a grpc error message if the swamp name is invalid or does not exist.
 func checkSwampName(zeusInterface zeus.Zeus, islandID uint64, inputSwampName string, checkExist bool) (name.Name, error) {
@@ -2946,6 +2962,9 @@ func checkSwampName(zeusInterface zeus.Zeus, islandID uint64, inputSwampName str
 	if inputSwampName == "" {
 		// return with grpc error message
 		return nil, status.Error(codes.InvalidArgument, "SwampName cannot be empty")
+	}
+	if !validSwampName(inputSwampName) {
+		return nil, status.Error(codes.InvalidArgument, "SwampName must have the form sanctuary/realm/swamp")
 	}
 	swampName := name.Load(inputSwampName)
 
